@@ -481,6 +481,11 @@ class Contracts:
 
         def k5(self, schema, data, *a, **kw):
             orig_vd(self, schema, data, *a, **kw)
+            if "rule_tests" not in vars(self):
+                # the aggregates are not stored facts of this object (computed on demand): reading them here would
+                # change what the caller observes - a contract must not have an observer effect
+                K.evals["K5:not-stored"] += 1
+                return
             K.evals["K5"] += 1
             try:
                 rts = self.rule_tests
